@@ -48,6 +48,8 @@ def run(ctx):
     check_reader(ctx, 'R4')
     from ..frame import check_frame_attrs
     check_frame_attrs(ctx, 'C05', 'R5')
+    from ..frame import check_child_thread_not_daemon
+    check_child_thread_not_daemon(ctx, 'R5')
     P = ctx.prog
     results = {}
     for name in KINDS:
@@ -252,7 +254,7 @@ def check_loop(ctx, cls, dw):
     return facts
 
 
-def check_send_result(ctx, cls):
+def check_send_result(ctx, cls, rule='R3'):
     _, sr = cls.resolve('_send_result')
     ctx.require(sr is not None, f'{cls.name}._send_result not found')
     ctx.used(sr)
@@ -262,7 +264,7 @@ def check_send_result(ctx, cls):
     incs = [st for st in walk_local(sr.node) if isinstance(st, ast.AugAssign) and is_self_attr(st.target) and isinstance(st.op, ast.Add)]
     incs += [st for st in walk_local(sr.node) if isinstance(st, ast.Assign) and is_self_attr(st.targets[0]) and isinstance(st.value, ast.BinOp)
              and isinstance(st.value.op, ast.Add) and is_self_attr(st.value.left, st.targets[0].attr)]
-    ok = ctx.check('R3', f'{F}: increments the counter exactly once', len(incs) == 1, F, f'counter-increments:{len(incs)}',
+    ok = ctx.check(rule, f'{F}: increments the counter exactly once', len(incs) == 1, F, f'counter-increments:{len(incs)}',
                    f'_send_result increments the result counter {len(incs)} times per result: `result` and the end marker disagree with the number of delivered results',
                    where=loc(sr, sr.node))
     if not ok:
@@ -270,31 +272,39 @@ def check_send_result(ctx, cls):
     inc = incs[0]
     counter = inc.target.attr if isinstance(inc, ast.AugAssign) else inc.targets[0].attr
     by = inc.value if isinstance(inc, ast.AugAssign) else inc.value.right
-    ctx.check('R3', f'{F}: the increment is by one', isinstance(by, ast.Constant) and by.value == 1, F, f'counter-step:{norm(by)}',
+    ctx.check(rule, f'{F}: the increment is by one', isinstance(by, ast.Constant) and by.value == 1, F, f'counter-step:{norm(by)}',
               f'the counter is advanced by {norm(by)} per result', where=loc(sr, inc))
     # the emission
     emits = []
+
+    def tuple_of(a):
+        # the message itself, or a local that was bound (once) to it
+        if isinstance(a, ast.Name):
+            defs = [st.value for st in walk_local(sr.node) if isinstance(st, ast.Assign) and len(st.targets) == 1 and is_name(st.targets[0], a.id)]
+            if len(defs) == 1:
+                a = defs[0]
+        return a if isinstance(a, ast.Tuple) else None
     for c in calls_in(sr.node):
-        if last_attr(c) in ('put', 'send') and c.args and isinstance(c.args[0], ast.Tuple):
-            emits.append((c, c.args[0], receiver(c)))
-        if last_attr(c) == 'send_msg' and len(c.args) >= 2 and isinstance(c.args[1], ast.Tuple):
-            emits.append((c, c.args[1], norm(c.args[0])))
-    ok = ctx.check('R3', f'{F}: emits exactly one message', len(emits) == 1, F, f'emissions:{len(emits)}', f'_send_result emits {len(emits)} messages per result',
+        if last_attr(c) in ('put', 'send') and c.args and tuple_of(c.args[0]) is not None:
+            emits.append((c, tuple_of(c.args[0]), receiver(c)))
+        if last_attr(c) == 'send_msg' and len(c.args) >= 2 and tuple_of(c.args[1]) is not None:
+            emits.append((c, tuple_of(c.args[1]), norm(c.args[0])))
+    ok = ctx.check(rule, f'{F}: emits exactly one message', len(emits) == 1, F, f'emissions:{len(emits)}', f'_send_result emits {len(emits)} messages per result',
                    where=loc(sr, sr.node))
     if not ok:
         return
     c, t, chan = emits[0]
     param = sr.params[1] if len(sr.params) > 1 else None
     shape = len(t.elts) == 4 and isinstance(t.elts[1], ast.Constant) and t.elts[1].value is True and is_name(t.elts[2], param) and norm(t.elts[3]) == 'self.id'
-    ctx.check('R3', f'{F}: the message is (counter, True, <result>, self.id)', shape, F, f'result-message-shape:{norm(t)}',
+    ctx.check(rule, f'{F}: the message is (counter, True, <result>, self.id)', shape, F, f'result-message-shape:{norm(t)}',
               f'the result message `{norm(t)}` does not have the (counter, True, value, worker id) shape', where=loc(sr, c))
     want = 'self._socket' if lc.kind == 'remote' else 'self._results_pipe.child_end'
-    ctx.check('R3', f'{F}: the message goes to the result channel', chan == want, F, f'result-channel:{chan}', f'results are written to `{chan}` instead of `{want}`', where=loc(sr, c))
+    ctx.check(rule, f'{F}: the message goes to the result channel', chan == want, F, f'result-channel:{chan}', f'results are written to `{chan}` instead of `{want}`', where=loc(sr, c))
     if len(t.elts) == 4:
         before = inc.lineno < c.lineno
         cexp = norm(t.elts[0])
         ok = (before and cexp == f'self.{counter}') or (not before and cexp == f'self.{counter} + 1')
-        ctx.check('R3', f'{F}: the counter field is the post-increment value (first result is number 1)', ok, F,
+        ctx.check(rule, f'{F}: the counter field is the post-increment value (first result is number 1)', ok, F,
                   f'counter-field:{cexp}:{"inc-first" if before else "send-first"}',
                   f'the counter field `{cexp}` does not number results 1, 2, 3, ... (increment {"before" if before else "after"} the emission)', where=loc(sr, c))
     # _init_child resets the counter and precedes do_work
@@ -314,13 +324,13 @@ def check_send_result(ctx, cls):
                 nxt = r[1]
         cur = nxt
         depth += 1
-    ctx.check('R3', f'{cls.name}: _init_child resets the counter to 0', reset, ic.short if ic else cls.name, f'counter-not-reset:{counter}',
+    ctx.check(rule, f'{cls.name}: _init_child resets the counter to 0', reset, ic.short if ic else cls.name, f'counter-not-reset:{counter}',
               'the child never resets its result counter: a restarted worker does not count from zero', where=loc(ic, ic.node) if ic else None)
     g = lc.g
     ic_post = {n.id for n in g.nodes if n.stmt is not None and n.part == 'post' and any(last_attr(x) == '_init_child' for x in n.calls())}
     dom = g.dominators(edge_ok=is_flow)
     ok = bool(lc.work_nodes) and all(dom.get(w.id, set()) & ic_post for w in lc.work_nodes)
-    ctx.check('R3', f'{cls.name}: _init_child() precedes do_work() in {lc.main.short}', ok, lc.main.short, 'init-child-not-before-work',
+    ctx.check(rule, f'{cls.name}: _init_child() precedes do_work() in {lc.main.short}', ok, lc.main.short, 'init-child-not-before-work',
               'do_work() can run without _init_child() having reset the child-side state', where=loc(lc.main, lc.main.node))
 
 
